@@ -256,7 +256,7 @@ Verdict(N, ES, r, k, yzero, C(_)) ==
         ch == IF hi.kind = "+inf" THEN -1 ELSE C(hi.v)     \* want y <= hi
         \* a non-zero y never rounds to the zero pattern when k = 0
     IN IF k = 0 /\ r = <<>> THEN "wrong"
-       ELSE IF cl = -1 \/ ch = 1 THEN "wrong"
+       ELSE IF cl \in {-1, 3} \/ ch \in {1, 3} THEN "wrong"      \* (3: the comparator says "nowhere near")
        ELSE IF (lo.kind = "zero" /\ cl = 2) \/ (hi.kind = "zero" /\ ch = 2) THEN "wrong"
        ELSE IF cl = 0 \/ ch = 0 THEN "undecided"
        ELSE "ok"
